@@ -82,6 +82,8 @@ def term(v):
         return z3.IntVal(1 if v else 0)
     if isinstance(v, int):
         return z3.IntVal(v)
+    if isinstance(v, z3.ArithRef):
+        return v
     raise Unsupported('not an integer value: %r' % (v,))
 
 
@@ -149,8 +151,10 @@ class SMap(object):
 class SSeq(object):
     """Immutable sequence of symbolic length.  elem(i_term) -> value."""
 
-    def __init__(self, length, elem, kind='tuple'):
+    def __init__(self, length, elem, kind='tuple', affine=None, const=None):
         self.length, self.elem, self.kind = length, elem, kind
+        self.affine = affine      # z3 Int b: elem(i) == b + i  (ranges and their slices)
+        self.const = const        # value v: elem(i) == v for all i  ((v,) * n)
 
 
 class FSet(object):
@@ -1115,6 +1119,13 @@ class Interp(object):
         if isinstance(a, (str, tuple, list)) or isinstance(b, (str, tuple, list)):
             if op == 'Mod' and isinstance(a, str):
                 return '<fmt>'
+            if op == 'Mult':
+                tp, cnt = (a, b) if isinstance(a, tuple) else (b, a)
+                if isinstance(tp, tuple) and len(tp) == 1 and isinstance(cnt, Sym):
+                    n = z3.simplify(term(cnt))
+                    v = tp[0]
+                    ln = n if self.st.prove_now(n >= 0) else z3.If(n >= 0, n, 0)
+                    return SSeq(ln, lambda i, v=v: v, 'tuple', const=v)
             raise Unsupported('binop %s on %r, %r' % (op, a, b))
         st = self.st
         ta, tb = term(a), term(b)
@@ -1510,9 +1521,27 @@ def seq_slice(I_, seq, sl):
         return SSeq(n, lambda i, seq=seq, n=n: seq.elem(z3.simplify(n - 1 - i)), seq.kind)
     if stp is None and hi is None and isinstance(lo, int) and lo >= 0:
         n = z3.If(seq.length >= lo, seq.length - lo, 0)
-        return SSeq(z3.simplify(n), lambda i, seq=seq, lo=lo: seq.elem(z3.simplify(i + lo)), seq.kind)
-    raise Unsupported('slice %r of a symbolic sequence' % (sl,))
+        aff = None if seq.affine is None else z3.simplify(seq.affine + lo)
+        return SSeq(z3.simplify(n), lambda i, seq=seq, lo=lo: seq.elem(z3.simplify(i + lo)), seq.kind,
+                    affine=aff, const=seq.const)
+    if stp is None or (isinstance(stp, int) and stp == 1):
+        # Python slice normalisation, step 1, bounds concrete or symbolic ints
+        n = seq.length
 
+        def norm(b, dflt):
+            if b is None:
+                return dflt
+            if isinstance(b, bool) or not isinstance(b, (int, Sym)):
+                raise RaiseSig('TypeError')
+            t = term(b)
+            return z3.If(t < 0, z3.If(n + t < 0, 0, n + t), z3.If(t > n, n, t))
+        lo_, hi_ = norm(lo, z3.IntVal(0)), norm(hi, n)
+        ln = z3.simplify(z3.If(hi_ > lo_, hi_ - lo_, 0))
+        lo_ = z3.simplify(lo_)
+        aff = None if seq.affine is None else z3.simplify(seq.affine + lo_)
+        return SSeq(ln, lambda i, seq=seq, lo_=lo_: seq.elem(z3.simplify(i + lo_)), seq.kind,
+                    affine=aff, const=seq.const)
+    raise Unsupported('slice %r of a symbolic sequence' % (sl,))
 
 def dict_get(I_, d, a):
     k = a[0]
@@ -1696,8 +1725,9 @@ def _b_any(I_, a, k):
 def _b_range(I_, a, k):
     if any(isinstance(x, Sym) for x in a):
         if len(a) == 1:
-            n = term(a[0])
-            return SSeq(z3.If(n >= 0, n, 0), lambda i: Sym(i), 'range')
+            n = z3.simplify(term(a[0]))
+            ln = n if I_.st.prove_now(n >= 0) else z3.If(n >= 0, n, 0)
+            return SSeq(ln, lambda i: Sym(i), 'range', affine=z3.IntVal(0))
         raise Unsupported('symbolic range with start/step')
     return range(*a)
 
@@ -1731,7 +1761,7 @@ def _b_tuple(I_, a, k):
     if not a:
         return ()
     if isinstance(a[0], SSeq):
-        return SSeq(a[0].length, a[0].elem, 'tuple')
+        return SSeq(a[0].length, a[0].elem, 'tuple', affine=a[0].affine, const=a[0].const)
     return tuple(I_.iterate(a[0]))
 
 
